@@ -57,6 +57,13 @@ class ContractAPI(object):
     def for_p2tr(self, synthetic_key: bytes) -> bytes:
         return self.for_info(dict(type="p2tr", synthetic_key=synthetic_key))
 
+    _PLACEHOLDERS = (b"PUBKEY", b"PUBKEYHASH", b"SEGWIT", b"SYNTHETIC_KEY")
+
+    def _is_canonical_push(self, script: bytes, start: int, end: int, data: bytes | None) -> bool:
+        if data is None:
+            return False
+        return script[start:end] == self._script_tools.scriptStreamer.compile_push_data(data)  # type: ignore[no-any-return]
+
     def match(self, template_disassembly: str, script: bytes) -> dict[str, list[Any]] | None:
         template = self._script_tools.compile(template_disassembly)
         r: dict[str, list[Any]] = collections.defaultdict(list)
@@ -66,6 +73,7 @@ class ContractAPI(object):
                 return r
             if pc1 >= len(script) or pc2 >= len(template):
                 break
+            start1 = pc1
             opcode1, data1, pc1, is_ok1 = self._script_tools.scriptStreamer.get_opcode(
                 script, pc1
             )
@@ -73,6 +81,10 @@ class ContractAPI(object):
                 template, pc2
             )
             l1 = 0 if data1 is None else len(data1)
+            if data2 in self._PLACEHOLDERS and not self._is_canonical_push(script, start1, pc1, data1):
+                # for_info() rebuilds the script with the shortest push: any other
+                # encoding of the same data is a different script
+                break
             if data2 == b"PUBKEY":
                 if l1 < 33 or l1 > 120:
                     break
@@ -178,10 +190,13 @@ class ContractAPI(object):
         m = opcode + (1 - OP_1)
         sec_keys = []
         while pc < len(script):
+            start = pc
             opcode, data, pc, is_ok = scriptStreamer.get_opcode(script, pc)
             size = len(data) if data else 0
             if size < 33 or size > 120:
                 break
+            if not self._is_canonical_push(script, start, pc, data):
+                return None
             sec_keys.append(data)
         if pc >= len(script):
             return None
